@@ -99,6 +99,8 @@ mod global {
     ///
     /// If the time zone isn't in the cache, then this returns `None`.
     pub(super) fn get(name: &str) -> Option<TimeZone> {
+        #[cfg(jiff_verif)]
+        crate::verif::acquire_read(&CACHED_ZONES, "bd.get");
         CACHED_ZONES.read().unwrap().get(name).cloned()
     }
 
@@ -110,6 +112,8 @@ mod global {
     /// The only way a time zone can be remove from the cache is if it's
     /// overwritten or if the cache is cleared entirely.
     pub(super) fn add(name: &str, tz: &TimeZone) {
+        #[cfg(jiff_verif)]
+        crate::verif::acquire_write(&CACHED_ZONES, "bd.add");
         let mut cache = CACHED_ZONES.write().unwrap();
         if let Err(i) = cache.get_zone_index(name) {
             cache.zones.insert(
@@ -121,6 +125,8 @@ mod global {
 
     /// Clear the entire global cache.
     pub(super) fn clear() {
+        #[cfg(jiff_verif)]
+        crate::verif::acquire_write(&CACHED_ZONES, "bd.clear");
         CACHED_ZONES.write().unwrap().clear();
     }
 
